@@ -171,6 +171,12 @@ def run_verus_cached(path):
         and not any(RLIMIT_PAT.search(x.get("message", "")) for x in d["diags"])
     if definitive:
         os.makedirs(cdir, exist_ok=True)
+        try:  # keep the cache small: the 150 most recently written results
+            old = sorted((os.path.join(cdir, x) for x in os.listdir(cdir) if x.endswith(".json")), key=os.path.getmtime)
+            for x in old[:-150]:
+                os.remove(x)
+        except OSError:
+            pass
         tmp = cp + f".{os.getpid()}.tmp"
         with open(tmp, "w") as f:
             json.dump(d, f)
